@@ -13,7 +13,7 @@ FLAG_FIELDS = ['is_read1', 'is_read2', 'is_qcfail', 'is_duplicate', 'is_unmapped
                'is_proper_pair', 'mate_is_unmapped', 'is_secondary', 'is_supplementary', 'mate_is_reverse']
 
 
-def make_read(eng, name, tags=None, fields=None, mapped=True, free_unmapped=False, absent_tags=()):
+def make_read(eng, name, tags=None, fields=None, mapped=True, free_unmapped=False, absent_tags=(), closed=False):
     """Arbitrary alignment record.  tags: {TAG: type}; every tag is optionally present."""
     attrs = {}
     for f in FLAG_FIELDS:
@@ -34,7 +34,7 @@ def make_read(eng, name, tags=None, fields=None, mapped=True, free_unmapped=Fals
         attrs['reference_start'] = None
         attrs['reference_end'] = None
         attrs['cigarstring'] = None
-        eng.assume(attrs['is_unmapped'].z)
+        attrs['is_unmapped'] = True
     for k, v in (fields or {}).items():
         attrs[k] = v(eng, name + '.' + k) if callable(v) else (named(v, name + '.' + k) if v in (INT, BOOL, REAL, STR) else v)
     tg = {}
@@ -43,6 +43,7 @@ def make_read(eng, name, tags=None, fields=None, mapped=True, free_unmapped=Fals
     for t in absent_tags:
         tg[t] = [False, None]
     attrs['_vc_tags'] = tg
+    attrs['_vc_closed'] = closed      # closed world: tags that are not declared are absent
     o = Obj('AlignedSegment', attrs)
     eng.witness[name] = o
     return o
@@ -54,6 +55,8 @@ def _tag_entry(obj, tag):
         raise Unsupported('tag name must be concrete')
     tg = obj.attrs['_vc_tags']
     if tag not in tg:
+        if obj.attrs.get('_vc_closed'):
+            return [False, None]
         raise Unsupported('read stub does not declare tag %r (add it to the contract)' % tag)
     return tg[tag]
 
@@ -65,6 +68,9 @@ def read_has_tag(eng, obj, tag):
 
 def read_get_tag(eng, obj, tag, *a, **k):
     ent = _tag_entry(obj, tag)
+    if getattr(eng, 'strict', 0):
+        eng.guarded_must_hold(zterm(ent[0], BOOL) if is_sym(ent[0]) else bool(ent[0]))
+        return ent[1]
     if not eng.pure:
         if not eng.branch(zterm(ent[0], BOOL)):
             raise PyRaise('KeyError', "tag '%s' not present" % tag)
